@@ -14,8 +14,9 @@
     a strconv number error, a JSON error, or the non-redis error of a RedisResult.
 
     External functions are parameters ([env]): strconv.ParseFloat (value AND ok flag: the value is
-    kept by callers that drop the error), the conversion float64(int64), strconv.ParseInt(s, 0, 64),
-    json.Unmarshal succeeding.  Floats are IEEE bit patterns.  Go maps are modelled as association
+    kept by callers that drop the error), the conversion float64(int64), json.Unmarshal succeeding.
+    Integers in strings are read in base ten by every accessor ([parse_int10]; AsIntMap used base 0 before
+    its repair, see [as_int_map_before_fix]).  Floats are IEEE bit patterns.  Go maps are modelled as association
     lists sorted by key ([mset] = assignment), which is also the canonical form the observer prints. *)
 From Coq Require Import String List NArith ZArith Bool.
 Require Import RV.Model.Base RV.Model.AccBase.
@@ -97,7 +98,6 @@ Definition idx {A : Type} (l : list A) (i : nat) : res A :=
 Record env := mkEnv {
   pf : bytes -> N * bool;        (* strconv.ParseFloat(s, 64): bits of the value, err == nil *)
   f_of_int : Z -> N;             (* float64(int64) as bits *)
-  pi0 : bytes -> option Z;       (* strconv.ParseInt(s, 0, 64) *)
   json_ok : bytes -> bool        (* json.Unmarshal(s, &v) == nil for the destination used *)
 }.
 
@@ -266,7 +266,7 @@ Definition as_str_map (m : msg) : res (smap bytes) :=
     else RErr EParse
   end.
 
-Definition as_int_map (e : env) (m : msg) : res (smap Z) :=
+Definition as_int_map_with (parse : bytes -> option Z) (m : msg) : res (smap Z) :=
   match msg_error m with
   | Some er => RErr er
   | None =>
@@ -275,11 +275,18 @@ Definition as_int_map (e : env) (m : msg) : res (smap Z) :=
            if is_str_typ k then
              match mstr v with
              | [] => if (mtyp v =? tInteger) || (mtyp v =? tNull) then ROk (mset (mstr k) (mintlen v) r) else ROk r
-             | s => match pi0 e s with Some z => ROk (mset (mstr k) z r) | None => RErr ENum end
+             | s => match parse s with Some z => ROk (mset (mstr k) z r) | None => RErr ENum end
              end
            else ROk r) (mvals m) []
     else RErr EParse
   end.
+
+(** AsIntMap (repaired: strconv.ParseInt(s, 10, 64) like AsInt64 and AsIntSlice) *)
+Definition as_int_map (m : msg) : res (smap Z) := as_int_map_with parse_int10 m.
+
+(** before the repair it called strconv.ParseInt(s, 0, 64): base prefixes, a leading 0 as octal, '_' separators;
+    [pi0] stands for that function *)
+Definition as_int_map_before_fix (pi0 : bytes -> option Z) (m : msg) : res (smap Z) := as_int_map_with pi0 m.
 
 (** ---- streams ---- *)
 Record xentry := mkXEntry { xe_id : bytes; xe_fields : option (smap bytes) }.
@@ -728,7 +735,7 @@ Definition run (e : env) (a : accessor) (m : msg) : res val :=
   | AAsScanEntry => rmap (fun ce => VTup [VUint (fst ce); vlist VStr (snd ce)]) (as_scan_entry m)
   | AAsMap => rmap (vmap VMsg) (as_map m)
   | AAsStrMap => rmap (vmap VStr) (as_str_map m)
-  | AAsIntMap => rmap (vmap VInt) (as_int_map e m)
+  | AAsIntMap => rmap (vmap VInt) (as_int_map m)
   | AAsLMPop => rmap (fun kv => VTup [VStr (fst kv); vlist VStr (snd kv)]) (as_lmpop m)
   | AAsZMPop => rmap (fun kv => VTup [VStr (fst kv); vlist v_zscore (snd kv)]) (as_zmpop e m)
   | AAsFtSearch => rmap (fun td => VTup [VInt (fst td); vlist v_doc (snd td)]) (as_ft_search e m)
@@ -831,14 +838,13 @@ Definition res_eqb (a c : res val) : bool :=
 
 (** ---- correspondence cases (printed by harness/cmd/obs_acc) ---- *)
 
-(** what the Go library answered on one string: ParseFloat (bits, ok), ParseInt base 0, json.Unmarshal ok *)
-Definition lib_row := (bytes * ((N * bool) * option Z * bool))%type.
+(** what the Go library answered on one string: ParseFloat (bits, ok), json.Unmarshal ok *)
+Definition lib_row := (bytes * ((N * bool) * bool))%type.
 
 Definition env_of (tbl : list lib_row) (fi : list (Z * N)) : env :=
-  mkEnv (fun s => match assoc s tbl with Some (p, _, _) => p | None => (0, false) end)
+  mkEnv (fun s => match assoc s tbl with Some (p, _) => p | None => (0, false) end)
         (fun z => match find (fun r => (fst r =? z)%Z) fi with Some r => snd r | None => 0 end)
-        (fun s => match assoc s tbl with Some (_, i, _) => i | None => None end)
-        (fun s => match assoc s tbl with Some (_, _, j) => j | None => false end).
+        (fun s => match assoc s tbl with Some (_, j) => j | None => false end).
 
 (** every string / intlen of the tree must be in the tables (fail closed) *)
 Fixpoint all_strs (m : msg) : list bytes :=
